@@ -1,6 +1,7 @@
 package main
 
 import (
+	"regexp"
 	"encoding/json"
 	"flag"
 	"fmt"
@@ -99,9 +100,15 @@ func matchKnown(k KnownFinding, name string) bool {
 	return k.Obligation == name
 }
 
+var occRe = regexp.MustCompile(`@[0-9]+$`)
+
+// occurrenceFree strips the trailing occurrence counter of an obligation name.
+func occurrenceFree(n string) string { return occRe.ReplaceAllString(n, "") }
+
 func stableKind(k string) bool {
 	switch {
-	case k == "ensures", k == "exit", k == "lemma", k == "vacuity", k == "frame", k == "lockset", k == "static":
+	case k == "ensures", k == "exit", k == "lemma", k == "vacuity", k == "lockset", k == "static":
+		// (frame obligations exist only for the heap maps a body writes: a harmless edit may remove one)
 		return true
 	case strings.HasPrefix(k, "loop"), strings.HasPrefix(k, "at-call"):
 		return true
@@ -390,8 +397,14 @@ func runCheck(id, tier string, writeBaseline bool) int {
 		}
 	}
 	// baseline obligations of stable kinds that are no longer generated
+	// an obligation may occur several times (one per return path / call site: name@2, name@3 ...); merging
+	// two paths is harmless, so a baseline name counts as still generated when any occurrence of it is
+	seenBaseName := map[string]bool{}
+	for n := range seen {
+		seenBaseName[occurrenceFree(n)] = true
+	}
 	for _, n := range base.Names {
-		if seen[n] {
+		if seen[n] || seenBaseName[occurrenceFree(n)] {
 			continue
 		}
 		k := kindOfName(n)
